@@ -173,7 +173,27 @@ def _i2(model: Model, rep: Report):
         swapped = subst(hv, {("attr", S, a): ("attr", S, b), ("attr", S, b): ("attr", S, a)})
         leaves = subterms(hv, lambda x: x[0] == "attr" and x[1] == S)
         uses_both = {x[2] for x in leaves} >= {a, b}
-        rep.check(hv == swapped and uses_both, "C19.I2", "EdgeIDObj.__hash__", h.loc, found=show(hv),
+        same = hv == swapped
+        if not same:
+            # the two qubit hashes are only compared with each other: decide per ordering (<, ==, >) of the two integers
+            from .c12 import K, ONE, resolve_max
+            from ..sym import t_add
+            fa, fb = ("attr", S, a), ("attr", S, b)
+            pairs = []
+            for c_ in subterms(hv, lambda x: x[0] == "call"):
+                lv = {x[2] for x in subterms(c_, lambda x: x[0] == "attr" and x[1] == S)}
+                if lv == {a}:
+                    mate = subst(c_, {fa: fb})
+                    if subterms(hv, lambda x: x == mate):
+                        pairs.append((c_, mate))
+            pairs.sort(key=lambda pr: -len(repr(pr[0])))
+            same = bool(pairs)
+            if pairs:
+                hx, hy = pairs[0]
+                for mp in ({hy: t_add(t_add(hx, ONE), K)}, {hy: hx}, {hx: t_add(t_add(hy, ONE), K)}):
+                    if resolve_max(subst(hv, mp)) != resolve_max(subst(swapped, mp)):
+                        same = False
+        rep.check(same and uses_both, "C19.I2", "EdgeIDObj.__hash__", h.loc, found=show(hv),
                   required="same normal form after exchanging the two qubits, reading both",
                   what="hash changes (or ignores a qubit) when the two qubits are exchanged: swapped form is "
                        + show(swapped), detail="hash")
